@@ -530,13 +530,13 @@ class Collection(object):
         if '_id' not in data:
             data['_id'] = ObjectId()
 
+        data = helpers.patch_datetime_awareness_in_document(data)
+
         object_id = data['_id']
         if isinstance(object_id, dict):
             object_id = helpers.hashdict(object_id)
         if object_id in self._store:
             raise DuplicateKeyError('E11000 Duplicate Key Error', 11000)
-
-        data = helpers.patch_datetime_awareness_in_document(data)
 
         self._store[object_id] = data
         try:
@@ -1429,7 +1429,7 @@ class Collection(object):
         to_delete = list(self.find(filter))
         deleted_count = 0
         for doc in to_delete:
-            doc_id = doc['_id']
+            doc_id = helpers.patch_datetime_awareness_in_document(doc['_id'])
             if isinstance(doc_id, dict):
                 doc_id = helpers.hashdict(doc_id)
             try:
